@@ -42,6 +42,8 @@ type stressResult struct {
 	Churns     int64
 	OrderKeys  int64
 	Complete   int64
+	SpaceWaits int64 // times a producer (receiver or delivering processor) had to wait for ring space
+	DataWaits  int64
 	Retained   int64
 	Inconcl    string
 }
@@ -80,6 +82,22 @@ func runStress(cfg stressCfg) *stressResult {
 	defer w.unregister()
 	raceYieldOn = raceEnabled
 	defer func() { raceYieldOn = false }()
+	var spaceWaits, dataWaits int64
+	if !raceEnabled {
+		h := func(pt string, obj interface{}) {
+			switch pt {
+			case "buf.wspace.prewait":
+				atomic.AddInt64(&spaceWaits, 1)
+			case "buf.readwait.prewait", "buf.peek.prewait":
+				atomic.AddInt64(&dataWaits, 1)
+			}
+		}
+		yieldAnyBuf.Store(&h)
+		defer yieldAnyBuf.Store(nil)
+	}
+	defer func() {
+		res.SpaceWaits, res.DataWaits = atomic.LoadInt64(&spaceWaits), atomic.LoadInt64(&dataWaits)
+	}()
 	var connMu sync.Mutex
 	var conns []net.Conn
 	dial := func(name string, o connectOpts, seed uint64) *rawclient.Client {
@@ -136,7 +154,7 @@ func runStress(cfg stressCfg) *stressResult {
 	for i := 0; i < cfg.Subscribers; i++ {
 		name := fmt.Sprintf("sub%d", i)
 		c := dial(name, connectOpts{Clean: true, KeepAlive: 600}, spec.Mix(cfg.Seed, uint64(100+i)))
-		kind := i % 3
+		kind := i % 4
 		sr := spec.NewRand(spec.Mix(cfg.Seed, uint64(200+i)))
 		var smu sync.Mutex
 		switch kind {
@@ -146,6 +164,15 @@ func runStress(cfg stressCfg) *stressResult {
 				d := sr.Intn(40)
 				smu.Unlock()
 				time.Sleep(time.Duration(d) * time.Microsecond)
+			})
+		case 3: // stalling: long enough pauses that the publishers' processors block on this subscriber's full ring
+			c.SetOnRead(func(n int) {
+				smu.Lock()
+				x := sr.Intn(12)
+				smu.Unlock()
+				if x == 0 {
+					time.Sleep(8 * time.Millisecond)
+				}
 			})
 		case 2: // bursty
 			c.SetOnRead(func(n int) {
